@@ -21,6 +21,7 @@ RULE = (
     "evaluable by its own engine (no payload-less Transfer from a foreign engine / payload-less SQL Materialization "
     "reachable without crossing a payload) and must not be statically empty or a join identity.  Non-trivial = the "
     "tree has >= 1 transfer or materialization and >= 1 hook call; distinct = program skeleton x hook-call pattern."
+    "  For half of the cases a further selection / calculation is then requested ON THE PROCESSED TREE with a random preferred engine, processed and executed again: the rows must be the model's rows of the whole sequence. "
 )
 ASSUMPTIONS = [
     "reference model vmon/model.py; SQLite + SQLAlchemy execute the SQL parts; grammar shim as in C02",
